@@ -26,8 +26,11 @@ Proof. intro H. unfold bind. now rewrite H. Qed.
 (* ---- primitive reads (byteorder::ReadBytesExt over read_exact) ---- *)
 Definition read_u8 : reader N := fun s => match s with [] => Eof | b :: r => Ok (b, r) end.
 (* read_exact of n bytes; n is an N so that absurd lengths never become a nat *)
+(* `has_at_least s n`: the input holds at least n bytes; walks at most n cells, so the test costs O(min(n, |s|)) whatever is left of the input *)
+Fixpoint has_at_least (s:bytes) (n:N) : bool :=
+  match s with [] => n =? 0 | _ :: r => if n =? 0 then true else has_at_least r (n - 1) end.
 Definition read_bytes (n:N) : reader bytes := fun s =>
-  if N.of_nat (length s) <? n then Eof else Ok (firstn (N.to_nat n) s, skipn (N.to_nat n) s).
+  if has_at_least s n then Ok (firstn (N.to_nat n) s, skipn (N.to_nat n) s) else Eof.
 
 Fixpoint le_decode (l:bytes) : N := match l with [] => 0 | b :: r => b + 256 * le_decode r end.
 Fixpoint le_encode (k:nat) (n:N) : bytes := match k with O => [] | S k' => n mod 256 :: le_encode k' (n / 256) end.
@@ -67,10 +70,16 @@ Qed.
 Lemma le_encode_wf k n : wfb (le_encode k n) = true.
 Proof. revert n; induction k; intro n; cbn; [reflexivity|]. rewrite IHk. replace (n mod 256 <? 256) with true by lia. reflexivity. Qed.
 
+Lemma has_at_least_spec s : forall n, has_at_least s n = (n <=? N.of_nat (length s)).
+Proof.
+  induction s as [|b r IH]; intro n; cbn [has_at_least length].
+  - destruct (N.eqb_spec n 0); lia.
+  - destruct (N.eqb_spec n 0) as [->|Hne]; [lia|]. rewrite IH. lia.
+Qed.
 Lemma read_bytes_app l r : read_bytes (N.of_nat (length l)) (l ++ r) = Ok (l, r).
 Proof.
-  unfold read_bytes. rewrite app_length.
-  replace (N.of_nat (length l + length r) <? N.of_nat (length l)) with false by lia.
+  unfold read_bytes. rewrite has_at_least_spec, app_length.
+  replace (N.of_nat (length l) <=? N.of_nat (length l + length r)) with true by lia.
   rewrite Nnat.Nat2N.id, firstn_app, Nat.sub_diag, firstn_all, skipn_app, Nat.sub_diag, skipn_all. cbn.
   now rewrite app_nil_r.
 Qed.
